@@ -1243,13 +1243,13 @@ def run(ctx):
     ctx.assume("Tree.add_subtree grafts graph nodes and their data lists only (checked syntactically on every run: it never reads the subtree's outlier list)")
     ctx.note("not rules (removing them leaves behaviour unchanged while callers are right): membership assertions in Tree.add_data_point_to_node / TreeNode.add_data_point*, isomorphism assertion in ConditionalSMCSampler._get_constrained_path")
     fx = TreeFx(ctx.prog)
-    rule_V1(ctx, fx)
-    rule_V2(ctx)
-    rule_V3(ctx)
-    rule_L1(ctx, fx)
-    rule_L2(ctx)
-    rule_R0(ctx)
-    rule_N0(ctx)
+    ctx.soft(rule_V1, fx)
+    ctx.soft(rule_V2)
+    ctx.soft(rule_V3)
+    ctx.soft(rule_L1, fx)
+    ctx.soft(rule_L2)
+    ctx.soft(rule_R0)
+    ctx.soft(rule_N0)
     # a tree restored / copied from a stored form must own its data lists: the samplers edit trees in place
     # (outliers are stripped from the input of the subtree move), and a shared list silently loses the
     # points of the stored form (same rule object as C06.M4)
@@ -1258,7 +1258,7 @@ def run(ctx):
     from ..formula import imported
     from ._treespec import rule_TS
 
-    rule_TS(ctx, owners=["tree.Tree", "tree_node.TreeNode", "visitors.PreOrderNodeRelabeller"])
+    ctx.soft(rule_TS, owners=["tree.Tree", "tree_node.TreeNode", "visitors.PreOrderNodeRelabeller"])
     ctx._own_rules = set(ctx.rule_min)
     imported(ctx, C06.rule_M4, fx)
     # the SMC passes build every tree one proposal at a time: each arm must extend a copy of its parent's tree by
